@@ -105,7 +105,7 @@ Definition upd (fs : list feature) (ws : bool) (q : mon) (e : event) : mon :=
       end
   | ENeg f st o =>
       mkMon (q_adv q) (q_cache q) (f_space f :: q_negd q) (q_nlists q)
-            (if o_err o then st else N.lor st (o_mask o))
+            (if o_err o then st else N.lor st (eff_mask o))
             (o_restart o && negb (o_err o))
             None (q_refused q)
             (q_self_ready q || (has (o_mask o) st_Ready && negb (o_err o)))
@@ -246,19 +246,23 @@ Definition established_sound (q : mon) (r : result) : Prop :=
   has (r_bits r) st_Ready = true /\ has (r_bits r) (q_last q) = true /\
   q_need_header q = false /\ ~ pending q.
 
-(* what holds of the code as it is: the above, unless a feature's own mask
-   contained Ready *)
+(* what holds of the code as it is: never in the middle of a restart; and no
+   required entry open unless a feature's own mask contained Ready *)
 Definition established_partial (q : mon) (r : result) : Prop :=
   r_class r = ROk ->
   has (r_bits r) st_Ready = true /\ has (r_bits r) (q_last q) = true /\
-  (q_self_ready q = false -> q_need_header q = false /\ ~ pending q).
+  q_need_header q = false /\ (q_self_ready q = false -> ~ pending q).
+
+(* the converse half: a run that ends in an error never reports Ready *)
+Definition error_not_ready (r : result) : Prop :=
+  forall e, r_class r = RErr e -> has (r_bits r) st_Ready = false.
 
 (* a refused selection ends the run with the error the monitor predicted *)
 Definition refusal_reported (q : mon) (r : result) : Prop :=
   forall e, q_refused q = Some e -> r_class r = RErr e.
 
 (* the state after a Negotiate call that saw st and returned o *)
-Definition after_neg (st : N) (o : outcome) : N := if o_err o then st else N.lor st (o_mask o).
+Definition after_neg (st : N) (o : outcome) : N := if o_err o then st else N.lor st (eff_mask o).
 
 (* the state bits as the Negotiate events of a trace determine them, from b *)
 Fixpoint acc_bits (b : N) (tr : list event) : N :=
@@ -291,20 +295,31 @@ Definition w1_run : result :=
   run cfg_ab 0 [hdr; mkItem false (PFeatures [FC xa (str "a") true false; FC xb (str "b") true false])] []
       [mkO st_Ready false false] [xa].
 
-(* W2: a voluntary feature returns Ready together with a new connection:
-   established although the restart it asked for never happened *)
+(* W2 (a witness against the pinned tree, repaired since): a voluntary feature
+   returns Ready together with a new connection; the Ready bit is ignored and the
+   stream restarts *)
 Definition w2_run : result :=
   run cfg_ab 0 [hdr; mkItem false (PFeatures [FC xa (str "a") false false])] []
       [mkO st_Ready true false] [xa].
 
-(* W3: the advertisement marks b required while b's prerequisite (Authn) does not
-   hold yet; the voluntary a sets Authn without a restart; nothing cached is left:
-   established, b advertised as required, eligible now, not negotiated *)
+(* W3 (a witness against the tree before c4806ad, repaired since): the
+   advertisement marks b required while b's prerequisite (Authn) does not hold
+   yet; the voluntary a sets Authn without a restart; b is negotiated next *)
 Definition fb_authn : feature := mkF xb (str "b") st_Authn 0 true KAbstract true false.
 Definition cfg_w3 : config := mkCfg [mkF xa (str "a") 0 0 true KAbstract false false; fb_authn] false false true (str "example.net") None false.
 Definition w3_run : result :=
   run cfg_w3 0 [hdr; mkItem false (PFeatures [FC xa (str "a") false false; FC xb (str "b") true false])] []
-      [mkO st_Authn false false] [xa].
+      [mkO st_Authn false false; mkO st_Ready false false] [xa; xb].
+
+(* W5: two configured features share a name space; the advertisement marks the
+   first (negotiable) required and then names the second (informational): the
+   cache, keyed by name space, keeps only the second; nothing is left to
+   negotiate: established, the first advertised as required, eligible, not negotiated *)
+Definition fa_req : feature := mkF xa (str "a") 0 0 true KAbstract true false.
+Definition fa2_info : feature := mkF xa (str "a2") 0 0 false KAbstract false false.
+Definition cfg_w5 : config := mkCfg [fa_req; fa2_info] false false true (str "example.net") None false.
+Definition w5_run : result :=
+  run cfg_w5 0 [hdr; mkItem false (PFeatures [FC xa (str "a") true false; FC xa (str "a2") false false])] [] [] [].
 
 Definition mon_of (c : config) (bits : N) (r : result) : mon := final (c_feats c) (c_ws c) (mon0 bits) (trace r).
 
@@ -352,12 +367,11 @@ Fixpoint negs (tr : list event) : list (name * N) :=
   | _ :: r => negs r
   end.
 
-(* W4: v is voluntary and needs Authn, a is voluntary and sets Authn, r is
-   required: after a only r is in the cache, r is taken while v — advertised,
-   voluntary, eligible by now — is open *)
-Definition fv_authn : feature := mkF xb (str "b") st_Authn 0 true KAbstract false false.
-Definition cfg_w4 : config := mkCfg [mkF xa (str "a") 0 0 true KAbstract false false; fv_authn; fr3] false false true (str "example.net") None false.
-Definition w4_run : result :=
-  run cfg_w4 0 [hdr; mkItem false (PFeatures [FC xa (str "a") false false; FC xb (str "b") false false; FC xc (str "c") true false])] []
-      [mkO st_Authn false false; mkO 0 false false] [xa; xc].
-
+(* W6: v (voluntary, negotiable) and a2 (informational) share a name space, r is
+   required: the cache keeps a2 for that name space, r is taken while v —
+   advertised, voluntary, eligible — is open *)
+Definition fv_a : feature := mkF xa (str "a") 0 0 true KAbstract false false.
+Definition cfg_w6 : config := mkCfg [fv_a; fa2_info; fr3] false false true (str "example.net") None false.
+Definition w6_run : result :=
+  run cfg_w6 0 [hdr; mkItem false (PFeatures [FC xa (str "a") false false; FC xa (str "a2") false false; FC xc (str "c") true false])] []
+      [mkO 0 false false] [xc].
